@@ -199,19 +199,22 @@ impl PartialEq for Value_ {
             }
             (
                 Value_::EnumVariant {
-                    runtime_type: self_runtime_type,
+                    type_name: self_type_name,
                     variant_idx: self_variant_idx,
                     payload: self_payload,
                     ..
                 },
                 Value_::EnumVariant {
-                    runtime_type: other_runtime_type,
+                    type_name: other_type_name,
                     variant_idx: other_variant_idx,
                     payload: other_payload,
                     ..
                 },
             ) => {
-                self_runtime_type == other_runtime_type
+                // As with lists, don't consider type arguments:
+                // `Some([])` is the same value however the empty list
+                // was built.
+                self_type_name == other_type_name
                     && self_variant_idx == other_variant_idx
                     && self_payload == other_payload
             }
@@ -230,15 +233,15 @@ impl PartialEq for Value_ {
             (
                 Value_::Struct {
                     fields: self_fields,
-                    runtime_type: self_runtime_type,
+                    type_name: self_type_name,
                     ..
                 },
                 Value_::Struct {
                     fields: other_fields,
-                    runtime_type: other_runtime_type,
+                    type_name: other_type_name,
                     ..
                 },
-            ) => self_runtime_type == other_runtime_type && self_fields == other_fields,
+            ) => self_type_name == other_type_name && self_fields == other_fields,
             _ => false,
         }
     }
